@@ -119,6 +119,7 @@ type Resp struct {
 	ParseOK   bool   `json:"parse_ok"`
 	ParseErr  string `json:"parse_err,omitempty"`
 	ParseUs   int64  `json:"parse_us,omitempty"`
+	ParseCPUUs int64 `json:"parse_cpu_us,omitempty"` // CPU time of the process during the parse
 	CheckRan  bool   `json:"check_ran,omitempty"`
 	CheckOK   bool   `json:"check_ok,omitempty"`
 	CheckErr  string `json:"check_err,omitempty"`
